@@ -1,6 +1,7 @@
 package main
 
 import (
+	"go/token"
 	"go/types"
 	"sort"
 	"strings"
@@ -272,6 +273,30 @@ func guardedAccesses(c *Ctx, r *R, prefix, pkgSuffix, typ, field, mu string) {
 			if _, fresh := base.(*ssa.Alloc); fresh {
 				return // initialisation of an object nobody else can see yet (possibly of a struct nested in it)
 			}
+			// ... also through an initialiser method that is only ever called on such an object (c := new(ContextCond);
+			// c.initialize(l))
+			if p, isP := base.(*ssa.Parameter); isP && p.Parent() == fn && fn.Parent() == nil && !token.IsExported(fn.Name()) {
+				pi := -1
+				for k, q := range fn.Params {
+					if q == p {
+						pi = k
+					}
+				}
+				sites := callCommonsOf(c, fn)
+				allFresh := pi >= 0 && len(sites) > 0
+				for _, cc := range sites {
+					if pi >= len(cc.Args) {
+						allFresh = false
+						break
+					}
+					if _, isAlloc := resolveVal(cc.Args[pi]).(*ssa.Alloc); !isAlloc {
+						allFresh = false
+					}
+				}
+				if allFresh {
+					return
+				}
+			}
 			if held == nil {
 				held = locksIn(fn, entryLocks(c, fn, 0))
 			}
@@ -296,6 +321,7 @@ func deepLocks(root *ssa.Function, d deepInstr) lockset {
 	cur := root
 	entry := lockset{}
 	outer := lockset{}
+	outerByFrame := map[int]lockset{} // locks a frame holds that the next callee cannot name, in that frame's own terms
 	var entered []*ssa.Call
 	for _, call := range d.calls {
 		if call.Parent() != cur {
@@ -318,7 +344,11 @@ func deepLocks(root *ssa.Function, d deepInstr) lockset {
 				}
 			}
 			if !translated {
-				outer["outer:"+lk] = mode
+				fi := len(entered) - 1 // (this call has been appended: the frame is the one it sits in)
+				if outerByFrame[fi] == nil {
+					outerByFrame[fi] = lockset{}
+				}
+				outerByFrame[fi][lk] = mode
 			}
 		}
 		entry = next
@@ -341,21 +371,28 @@ func deepLocks(root *ssa.Function, d deepInstr) lockset {
 	}
 	// a lock the helper takes on one of its parameters (withLock(&g.m, f): l.Lock(); f(); l.Unlock()) is, in the root's terms,
 	// the lock named by the argument
-	for i := len(entered) - 1; i >= 0; i-- {
-		cal := staticCallee(&entered[i].Call)
+	backRename := func(set lockset, through *ssa.Call) lockset {
+		cal := staticCallee(&through.Call)
 		ren := lockset{}
-		for lk, mode := range out {
+		for lk, mode := range set {
 			done := false
-			for k, a := range entered[i].Call.Args {
-				if k >= len(cal.Params) {
+			for k, a := range through.Call.Args {
+				if cal == nil || k >= len(cal.Params) {
 					continue
 				}
 				pn := pname(cal.Params[k])
 				if mi, ok := a.(*ssa.MakeInterface); ok {
 					a = mi.X
 				}
+				m2 := mode
+				// c.m.RLocker() handed over as the Locker: its Lock is a read lock of c.m
+				if rc, ok := a.(*ssa.Call); ok {
+					if rcal := rc.Call.StaticCallee(); rcal != nil && rcal.Name() == "RLocker" && len(rc.Call.Args) == 1 {
+						a, m2 = rc.Call.Args[0], 'R'
+					}
+				}
 				if lk == pn || strings.HasPrefix(lk, pn+".") {
-					ren[path(a)+lk[len(pn):]] = mode
+					ren[path(a)+lk[len(pn):]] = m2
 					done = true
 				}
 			}
@@ -363,7 +400,19 @@ func deepLocks(root *ssa.Function, d deepInstr) lockset {
 				ren[lk] = mode
 			}
 		}
-		out = ren
+		return ren
+	}
+	for i := len(entered) - 1; i >= 0; i-- {
+		out = backRename(out, entered[i])
+	}
+	// what an intermediate frame held in its own terms (holding(l, f): l is held around f()), named in the root's terms
+	for fi, set := range outerByFrame {
+		for i := fi - 1; i >= 0; i-- {
+			set = backRename(set, entered[i])
+		}
+		for lk, mode := range set {
+			outer["outer:"+lk] = mode
+		}
 	}
 	for k, v := range outer {
 		out[k] = v
@@ -417,6 +466,17 @@ func heldAroundParam(c *Ctx, call *ssa.Call, ai int, depth int) lockset {
 				pn := pname(h.Params[i])
 				if strings.HasPrefix(lk, pn+".") {
 					out[path(a)+lk[len(pn):]] = mode
+				}
+				// the lock IS the parameter (holding(l sync.Locker, f func())): the caller's &c.m, or c.m.RLocker() - a read lock
+				if lk == pn {
+					av := stripChange(a)
+					m2 := mode
+					if rc, ok := av.(*ssa.Call); ok {
+						if cal := rc.Call.StaticCallee(); cal != nil && cal.Name() == "RLocker" && len(rc.Call.Args) == 1 {
+							av, m2 = rc.Call.Args[0], 'R'
+						}
+					}
+					out[path(av)] = m2
 				}
 			}
 		}
